@@ -288,7 +288,8 @@ Section Batch.
 
   (* the quantifier domain of C01: told points inside the bounds; a batched
      tell only when the resulting point set (known + pending) spans exactly
-     the domain, i.e. both end points are known or pending *)
+     the domain (with the repaired batch path, /repo 0eef8ad: no known or pending point
+     outside the bounds; before the repair: both end points known or pending) *)
   Definition legal_op (s : st) (o : op num) : bool :=
     match o with
     | Tell x _ => in_bounds x
